@@ -1,5 +1,5 @@
 #!/bin/sh
-# Builds the framework from files on disk only (offline): the two quick-tier profiles,
+# Builds the framework from files on disk only (offline): the quick-tier builds (release, release + overflow checks, release against the no_std library),
 # concurrently, each in its own target directory (the same ones ./check uses).
 set -e
 cd "$(dirname "$0")/harness"
@@ -9,5 +9,9 @@ cargo build --offline --release --target-dir ../target/harness-release &
 P1=$!
 cargo build --offline --profile relchk --target-dir ../target/harness-relchk &
 P2=$!
+# third leg: the same harness against the library without its `std` feature
+cargo build --offline --release --no-default-features --target-dir ../target/harness-nostd &
+P3=$!
 wait $P1
 wait $P2
+wait $P3
